@@ -1,7 +1,10 @@
 package main
 
 import (
+	"fmt"
 	"net/http"
+	"os"
+	"path/filepath"
 	"testing"
 	"time"
 
@@ -103,3 +106,79 @@ func TestC16Flags(t *testing.T) {
 }
 
 func init() { vh.RegisterReplay("C16.flags", vh.Replayer(runC16Flag)) }
+
+// C16 (input files of the commands): whatever the files given to encode, report and plot hold - nothing at
+// all, bytes in no format, a valid stream, any mix and number of them - the command returns, with a
+// result or an error, in bounded time.
+
+type c16Inputs struct {
+	Cmd   string   // encode | report | plot
+	Files []string // per input: empty | garbage | nl | gob | json | csv
+}
+
+func runC16Inputs(c c16Inputs) error {
+	if len(c.Files) == 0 || len(c.Files) > 16 {
+		return fmt.Errorf("bad case")
+	}
+	dir, err := os.MkdirTemp("", "c16in")
+	if err != nil {
+		return err
+	}
+	defer os.RemoveAll(dir)
+	one := []vegeta.Result{{Attack: "c16", Seq: 0, Code: 200, Timestamp: time.Unix(1600000000, 0).UTC(), Latency: time.Millisecond, Method: "GET", URL: "http://c16.test/"}}
+	var ins []string
+	size := 0
+	for i, kind := range c.Files {
+		p := filepath.Join(dir, fmt.Sprintf("in%d", i))
+		var data []byte
+		switch kind {
+		case "empty":
+		case "garbage":
+			data = []byte("\x00\x01 this is no results file\n\xff\xfe")
+		case "nl":
+			data = []byte("\n")
+		default:
+			if data, _, err = vgen.EncodeAll(vgen.CodecByName(kind), one); err != nil {
+				return err
+			}
+		}
+		if err := os.WriteFile(p, data, 0o644); err != nil {
+			return err
+		}
+		ins, size = append(ins, p), size+len(data)
+	}
+	out := filepath.Join(dir, "out")
+	_, err = vgen.RunBounded(fmt.Sprintf("vegeta %s over input files %v", c.Cmd, c.Files), size, 1, func(success func() bool) {
+		switch c.Cmd {
+		case "encode":
+			_ = runEncode(ins, "json", out)
+		case "report":
+			_ = runReport(ins, "json", out, 0, "")
+		default:
+			_ = runPlot(ins, 4000, "c16", out)
+		}
+	})
+	return err
+}
+
+func TestC16Inputs(t *testing.T) {
+	vh.ShrinkTime("10s") // a hanging command costs three watchdog periods per attempt
+	vh.Check(t, 40, 1500, func(t *rapid.T) {
+		c := c16Inputs{Cmd: rapid.SampledFrom([]string{"encode", "report", "plot"}).Draw(t, "cmd")}
+		kinds := []string{"empty", "empty", "garbage", "nl", "gob", "json", "csv"}
+		if rapid.IntRange(0, 3).Draw(t, "allempty") == 0 {
+			kinds = []string{"empty", "empty", "nl"}
+		}
+		c.Files = rapid.SliceOfN(rapid.SampledFrom(kinds), 1, 5).Draw(t, "files")
+		nt := len(c.Files) >= 2
+		vh.Case("C16.inputs", fmt.Sprintf("%+v", c), nt, c.Cmd)
+		vh.Sample("C16.inputs", nt, c)
+		var err error
+		vh.Guard("C16", "C16.inputs", c, func() { err = runC16Inputs(c) })
+		if err != nil {
+			vh.Fail(t, "C16", "C16.inputs", c, err)
+		}
+	})
+}
+
+func init() { vh.RegisterReplay("C16.inputs", vh.Replayer(runC16Inputs)) }
